@@ -191,7 +191,10 @@ func c12MainRng(group string) *rand.Rand {
 
 // c12Thin keeps every k-th mutant in the quick tier (rotated by the seed), all of them in the thorough tier.
 func c12Thin(muts []c12kit.Mut, quickKeep int) []c12kit.Mut {
-	if ev.Thorough() || len(muts) <= quickKeep {
+	if ev.Thorough() {
+		quickKeep *= 20 // an epoch case costs ~50 ms (index load + 40 queries): keep the thorough tier within ~10 minutes
+	}
+	if len(muts) <= quickKeep {
 		return muts
 	}
 	stride := (len(muts) + quickKeep - 1) / quickKeep
